@@ -47,6 +47,30 @@ CLAIMED["C13"] = dict(
    note="Documented support = :class: references in simulator docstrings.",
    technique="TLA+ validation model + TLC over single-fault mutants; replay on all simulators with TLC trace validation",
    engine="PqEngine")
+CLAIMED["C01"] = dict(
+   category="model_checking", design_ref="§3 C01",
+   text="PqOptics.tla is an exact reference semantics of number-conserving photonics (polynomials in creation operators over Z[sqrt2, i], gates = documented one-particle matrices on the parameter lattice, every ordered mode tuple); TLC explores all gate sequences to depth 2-3 on d=2,3(,4) modes (thorough: simulation to depth 5), checks exact norm conservation on the spec and exports the exact state after every gate; each exported state is replayed on PureFockSimulator (state vector incl. phases at cutoff n+1 and n+2), FockSimulator (density matrix) and PassiveSimulator (detection probabilities) at 1e-9. Agreement between simulators follows from agreement of each with the exact state and is also compared pairwise.",
+   note="Parameters on the exact lattice only; active gates and the Gaussian simulator are not yet covered by this check (see C07/C14 status).",
+   technique="exact TLA+ reference semantics over Z[sqrt2,i] explored by TLC; exported behaviours replayed on every simulator",
+   engine="PqOptics")
+CLAIMED["C05"] = dict(
+   category="model_checking", design_ref="§3 C05",
+   text="PqOptics.tla models loss as the unitary dilation (beamsplitter onto a fresh ancilla) and post-selection as projection; TLC checks NormIsOne, NormAtMostOne, ChainRule and SeqEqJoint on every reachable spec state and exports exact states. Replay on PassiveSimulator: get_particle_detection_probability, fock_probabilities_map, marginals on every mode subset, state_vector and norm against the marginal of the exact dilation (1e-9), and the dilation program itself on PureFockSimulator amplitude by amplitude.",
+   note="Partial distinguishability (Gram matrices) is not modelled yet; lattice transmissivities 3/5, 4/5, 1/sqrt2.",
+   technique="exact TLA+ dilation semantics + TLC; behaviours replayed on PassiveSimulator and on the PureFock dilation",
+   engine="PqOptics")
+CLAIMED["C08"] = dict(
+   category="model_checking", design_ref="§3 C08",
+   text="Spec side: NormIsOne / NormAtMostOne hold in every reachable PqOptics state (TLC). The exact norm of every exported state (gates, Kerr, loss dilation, post-selection) is compared after every step with PureFock norm, Fock trace and Passive norm; monitors after every instruction of Gaussian programs at hbar 1/2, 2, 8 (real symmetric covariance, uncertainty relation, purity = 1/sqrt(det(sigma/hbar)) in (0,1], is_pure), Fock density matrices (Hermitian, positive, trace <= 1), fermionic correlation spectra, probability ranges, and on every state returned by every simulation step of adaptive programs on all simulators (post-measurement states included).",
+   note="Gaussian exact invariants come from monitors, not yet from a PqGaussian spec.",
+   technique="TLC invariants on the exact optics spec + per-step physicality monitors bound to exact norms",
+   engine="PqOptics")
+CLAIMED["C16"] = dict(
+   category="model_checking", design_ref="§3 C16",
+   text="TLC proves on PqOptics (exact arithmetic) RelabelEquivariant -- a product construction evolving the program and its Perm-relabelled version side by side -- for permutations of 3 modes, and CommuteDisjoint for every disjoint pair of catalogue gates; C01 compares all simulators with the spec on every ordered mode tuple, which transfers the property; additionally each exported sequence is run with its relabelled version and with adjacent disjoint gates exchanged on PureFock, Fock and Passive simulators.",
+   note="Gaussian and fermionic simulators are not yet covered by the direct replay.",
+   technique="TLC theorems (product construction) on the exact spec + direct relabelling / commutation replay",
+   engine="PqOptics")
 NOT_APPLICABLE_REASON = {}
 def main():
     checks = []
